@@ -5,7 +5,7 @@ From Coq Require Extraction.
 From Coq Require Import ExtrOcamlBasic.
 From CFDP Require Import Base.Prelude Model.Segments.
 From CFDP Require Import Model.Crc Model.Timer Model.TxTypes Model.Recv Model.Send Model.TxInst.
-From CFDP Require Import Model.Link.
+From CFDP Require Import Model.Link Model.Daemon.
 From CFDP Require Import Model.Checksum.
 From CFDP Require Import Model.Path.
 From CFDP Require Import Model.Udp.
@@ -24,6 +24,7 @@ Extraction "model.ml"
   Send.s_new Send.sstep Send.s_has_pdu_to_send Send.s_until_timeout
   TxInst.inst_rstep TxInst.inst_sstep TxInst.flat_lookup
   Link.l_new Link.lstep
+  Daemon.d_new Daemon.d_put Daemon.d_command Daemon.d_forward Daemon.d_cleanup
   Checksum.file_checksum
   Path.path_components Path.path_strip_prefix Path.path_native Path.path_native2
   Udp.udp_recv Udp.udp_initial_buffer
